@@ -454,6 +454,7 @@ def cases_for(prop, tier, seed, pools, toks, ck):
     if prop == "C03":
         for lang in L:
             cases += gen.gen_prefix_cases(lang, rnd, pools[lang], toks, per(14, 400))
+        cases += gen.gen_huge_store_cases("C03", rnd.choice(L), rnd, pools["en"], per(1, 6))
     elif prop == "C04":
         for lang in L:
             cases += gen.gen_edit_cases(lang, rnd, pools[lang], toks, per(6, 150), per_pos=per(1, 3))
@@ -472,17 +473,22 @@ def cases_for(prop, tier, seed, pools, toks, ck):
             cases += gen.gen_span_cases(lang, rnd, pools[lang], toks, per(8, 200))
             cases += gen.gen_store_relations("C05", lang, rnd, pools[lang], toks, per(4, 100))
             cases += gen.gen_histories("C05", lang, rnd, pools[lang] + gen.ADVERSARIAL, toks, per(4, 100), length=12, adversarial=True)
+        cases += gen.gen_registry_cases(rnd, per(15, 400), pools, toks, length=per(30, 50))
     elif prop == "C06":
         for lang in L:
             cases += gen.gen_store_relations("C06", lang, rnd, pools[lang], toks, per(4, 120))
             cases += gen.gen_store_relations("C06", lang, rnd, pools[lang], toks, per(1, 30), big=True)
+        cases += gen.gen_huge_store_cases("C06", rnd.choice(L), rnd, pools["en"], per(1, 6))
     elif prop == "C07":
         for lang in L:
             cases += gen.gen_store_relations("C07", lang, rnd, pools[lang], toks, per(4, 120))
             cases += gen.gen_store_relations("C07", lang, rnd, pools[lang], toks, per(1, 20), big=True)
+        cases += gen.gen_huge_store_cases("C07", rnd.choice(L), rnd, pools["en"], per(1, 6))
     elif prop in ("C10", "C12"):
         for lang in L:
             cases += gen.gen_histories(prop, lang, rnd, pools[lang], toks, per(12, 400), length=per(14, 24))
+        # the same statement through the top-level API (lib.rs), with a stand-alone store in lock-step
+        cases += gen.gen_registry_cases(rnd, per(20, 600), pools, toks, length=per(30, 50))
     elif prop == "C01":
         for lang in L:
             cases += gen.gen_histories("C01", lang, rnd, pools[lang], toks, per(10, 300), length=per(16, 30), adversarial=True)
@@ -491,7 +497,9 @@ def cases_for(prop, tier, seed, pools, toks, ck):
         for lang in L:
             cases += gen.gen_marker_cases(lang, rnd, pools[lang], toks, per(10, 300))
             cases += gen.gen_markup_cases(lang, rnd, pools[lang], toks, per(6, 200))
+            cases += gen.gen_table_store_cases(lang, rnd, prop)
             cases += gen.gen_histories(prop, lang, rnd, pools[lang], toks, per(3, 100), length=12, adversarial=True)
+        cases += gen.gen_registry_cases(rnd, per(10, 300), pools, toks, length=per(30, 50))
     elif prop == "C18":
         for lang in L:
             cases += gen.gen_prepare_cases(lang, rnd, pools[lang], toks, per(8, 250))
@@ -503,6 +511,7 @@ def cases_for(prop, tier, seed, pools, toks, ck):
     elif prop == "C11":
         for lang in L:
             cases += gen.gen_variant_cases(lang, rnd, pools[lang], toks, per(8, 250))
+            cases += gen.gen_table_store_cases(lang, rnd, "C11")
     else:
         raise ToolError("no plan for %s" % prop)
     return cases
@@ -559,6 +568,8 @@ def plan_components(prop, tier, seed, t0):
     if prop == "C15":
         pools, toks = build_pools(ck, tier, random.Random(seed))
         cases = gen.gen_tok_cases(rnd, tier, pools)
+        for lang in gen.LANGS:
+            cases += gen.gen_table_cases(lang, rnd)
     if prop in ("C16", "C19"):
         cases += gen.gen_dl_cases(rnd, tier)
     if prop in ("C17", "C19"):
